@@ -300,6 +300,65 @@ func runC06(p *core.Prog, r *core.Report) {
 				doneEdges[e] = true
 			}
 		})
+		// a defensive `if index < 0 || index >= len(list) { return }` on the lane index is dead: the constructor starts the
+		// goroutine from a counted loop over exactly that many lanes
+		sx.Instrs(g.fn, func(in ssa.Instruction) {
+			b, ok := in.(*ssa.BinOp)
+			if !ok || b.Referrers() == nil {
+				return
+			}
+			prm, ok := sx.Unspill(b.X).(*ssa.Parameter)
+			if !ok {
+				return
+			}
+			arg, bound := t.bind[prm], ssa.Value(nil)
+			if arg == nil {
+				return
+			}
+			// the argument is the counter of a counted loop in the constructor
+			var iter *ssa.Phi
+			switch x := sx.Unspill(arg).(type) {
+			case *ssa.Phi:
+				iter = x
+			case *ssa.BinOp: // rotated range loops hand on phi+1
+				if ph, ok := x.X.(*ssa.Phi); ok {
+					iter = ph
+				}
+			}
+			if iter == nil {
+				return
+			}
+			h := iter.Block()
+			if len(h.Succs) > 0 && h.Succs[0] != h {
+				if hh := sx.InnermostLoop(t.Ctor, h); hh != nil {
+					h = hh
+				}
+			}
+			tb, ok := sx.LoopTrip(h)
+			if !ok {
+				return
+			}
+			bound = t.canonCount(tb)
+			deadTrue := false
+			switch {
+			case b.Op == token.LSS:
+				if k, isC := sx.ConstInt(b.Y); isC && k == 0 {
+					deadTrue = true // index < 0
+				}
+			case b.Op == token.GEQ:
+				if t.canonCount(b.Y) == bound {
+					deadTrue = true // index >= number of lanes
+				}
+			}
+			if !deadTrue {
+				return
+			}
+			for _, u := range *b.Referrers() {
+				if iff, ok := u.(*ssa.If); ok {
+					doneEdges[sx.Edge{From: iff.Block(), Idx: 0}] = true
+				}
+			}
+		})
 		okExit, where := true, ""
 		for _, ret := range sx.Returns(g.fn) {
 			if sx.ReachInstr(g.fn, nil, ret, sx.Cut{Edges: doneEdges}) {
